@@ -84,3 +84,12 @@ package cache
 //@   loop 0 invariant forall k string :: in(k, found) ==> liveAt(m, k) && same(found[k], m.cache[k].Data)
 //@   loop 0 invariant forall j int :: 0 <= j && j < $i ==> liveAt(m, keys[j]) ==> in(keys[j], found)
 //@   modifies nothing
+//@
+//@ # ---- compression layer: only successfully decoded entries are returned ----------------------
+//@ func SnappyCache.GetMultiWithError
+//@   property C19
+//@   ensures  decodedOnly: forall k string :: in(k, r0) ==> in(k, found) && snappyOK(found[k]) && same(r0[k], snappyDecoded(found[k]))
+//@   ensures  complete: forall k string :: in(k, found) && snappyOK(found[k]) ==> in(k, r0)
+//@   loop 0 invariant !isnil(decoded)
+//@   loop 0 invariant forall k string :: in(k, decoded) ==> $visited[k] && in(k, found) && snappyOK(found[k]) && same(decoded[k], snappyDecoded(found[k]))
+//@   loop 0 invariant forall k string :: $visited[k] && snappyOK(found[k]) ==> in(k, decoded)
